@@ -8,11 +8,13 @@ props = [json.loads(l) for l in open(os.path.join(V, "properties.jsonl"))]
 
 SM_NOTE = ("Trusted: TLC; the HAL simulator clock (exact on the 1/64 s grid) and in-process NetworkTables; the recorder in "
            "harness/drivers/sm_driver.py (public API and user callbacks only). Bounds: exhaustive runs are bounded in "
-           "behaviour length and machine time (evidence.tlc_runs); one in-state action per state-function call; the default "
-           "state's function requests no transition.")
+           "behaviour length and machine time (evidence.tlc_runs); a state function performs up to 2 (exhaustive) / 3 (simulated) / 4 (random) in-state "
+           "actions; the default state's function requests no transition; programs that select a state after the machine "
+           "stopped inside the same iteration are outside the explored space except for the directed history of the open "
+           "finding F8 (known_findings.json), which C02/C03 replay and report as KNOWN-FINDING.")
 CLAIMED = {
     "C01": dict(cat="model_checking", ref="DESIGN.md 4.1, 5/C01", note=SM_NOTE,
-                text="TLC checks the C01 invariants/action properties of specs/MagicSM.tla exhaustively on six machine shapes (bounded), shows they have teeth (a 'no_deactivate' mutation of the spec is caught) and are not vacuous (probes); the real StateMachine is then bound to the spec in both directions: random call/clock histories on random shapes recorded from the code are accepted by TLC against the spec (clauses: which and how many state functions ran per iteration), and TLC-simulated spec behaviours are replayed on the code.",
+                text="TLC checks the C01 invariants/action properties of specs/MagicSM.tla exhaustively on six machine shapes (bounded), shows they have teeth (a 'no_deactivate' mutation and the pre-fix 'nested_consumes_request' behaviour of the spec are caught) and are not vacuous (probes); the real StateMachine is then bound to the spec in both directions: random call/clock histories on random shapes recorded from the code are accepted by TLC against the spec (clauses: which and how many state functions ran per iteration), and TLC-simulated spec behaviours are replayed on the code.",
                 tech="TLA+ spec MagicSM + TLC exhaustive invariants; TLC batch trace validation of recorded executions; TLC -simulate behaviours replayed on the code"),
     "C02": dict(cat="model_checking", ref="DESIGN.md 4.1, 5/C02", note=SM_NOTE,
                 text="Integer-tick TLA+ model of timed states (expiry test first, successor starts at predecessor's expiry, cycle restarts at the expiry instant, duration tunable read at entry); TLC checks the C02 invariants exhaustively with clock steps landing before/on/after expiries, and validates recorded executions (state names on expiry branches, state_tm, durations written over NetworkTables) and replays simulated behaviours; exact comparison because the simulated FPGA clock is exact on the 1/64 s grid.",
